@@ -191,6 +191,7 @@ func stressRun(c *Ctx, seed uint64, cfg bedConfig, variant int) {
 	}
 	if !closeInTheMiddle && len(sc.fails) == 0 {
 		// everything that was sent is served or legitimately dropped, all slots come back
+		sc.rebase() // peers have come and gone; what is on its way out now only makes the count too high
 		sc.settle("after load")
 		tb.mu.Lock()
 		for _, ri := range tb.rpcs {
